@@ -9,6 +9,7 @@ INVARIANT NoneAfterZeroHeartbeat
 INVARIANT DisconnectStopsPdo
 INVARIANT HbPayloadIsState
 INVARIANT PdoPayloadCurrent
+INVARIANT RestartUsesCurrentId
 INVARIANT GenPrint
 
 CHECK_DEADLOCK FALSE
